@@ -61,9 +61,9 @@ def gen_cases(rng, n, failures):
     return cases
 
 
-def enc(c, schedule=None):
+def enc(c, schedule=None, model=205):
     s = c["schedule"] if schedule is None else schedule
-    return (205, [c["n_threads"], c["n_items"]] + wr_list(c["fail_items"]) + wr_list(s))
+    return (model, [c["n_threads"], c["n_items"]] + wr_list(c["fail_items"]) + wr_list(s))
 
 
 def dec(mo):
@@ -103,47 +103,33 @@ def run(ctx, n, failures):
             raise RuntimeError("sched_worker failed: %r" % (str(res)[:800],))
         for j, r in enumerate(res):
             impl[si + j * len(shards)] = r
-    encs = [enc(c) for c in cases]
-    mouts = run_models(encs)
-    # prefixes: the entries the real threads needed, and one fewer
-    pre_enc, pre_idx = [], []
-    for i, (c, r) in enumerate(zip(cases, impl)):
-        u = r["schedule_used"]
-        if not r["schedule_exhausted_with_live_threads"] and not r["stuck"] and u >= 1:
-            pre_enc += [enc(c, c["schedule"][:u]), enc(c, c["schedule"][:u - 1])]
-            pre_idx.append(i)
-    pouts = run_models(pre_enc)
-    prefix = {i: (dec(pouts[2 * k])["done"], dec(pouts[2 * k + 1])["done"]) for k, i in enumerate(pre_idx)}
-    first_broken, first_genuine = None, None
-    for i, (c, r, mo) in enumerate(zip(cases, impl, mouts)):
-        m = dec(mo)
-        d = {k: c[k] for k in ("n_threads", "n_items", "n_outcomes_per_job", "fail_items", "kind", "schedule")}
-        rep.case(d, nontrivial=c["n_threads"] > 1 and c["n_items"] > 1)
-        rep.hist("controlled_schedule_kind", c["kind"])
-        rep.hist("controlled_threads", c["n_threads"])
-        rep.hist("controlled_failing_items", len(c["fail_items"]))
-        rep.bump("controlled_turns", r["turns"])
+    def model_runs(model):
+        """the machine `model` on every schedule, and on the prefixes the real threads needed / one entry fewer"""
+        encs_ = [enc(c, model=model) for c in cases]
+        mouts_ = run_models(encs_)
+        pre_enc, pre_idx = [], []
+        for i, (c, r) in enumerate(zip(cases, impl)):
+            u = r["schedule_used"]
+            if not r["schedule_exhausted_with_live_threads"] and not r["stuck"] and u >= 1:
+                pre_enc += [enc(c, c["schedule"][:u], model), enc(c, c["schedule"][:u - 1], model)]
+                pre_idx.append(i)
+        pouts = run_models(pre_enc)
+        prefix_ = {i: (dec(pouts[2 * k])["done"], dec(pouts[2 * k + 1])["done"]) for k, i in enumerate(pre_idx)}
+        return encs_, mouts_, prefix_
+
+    def observed(c, r):
         log = r["log"]
         over = not r["schedule_exhausted_with_live_threads"] and not r["stuck"]
-        got = {"trace": [e[2] for e in log if e[0] == "ran"],
-               "finished": [e[2] for e in log if e[0] == "finished"],
-               "errs": [e[2] for e in log if e[0] == "raised"],
-               "dead": [e[1] for e in log if e[0] == "raised"][::-1],
-               "done": 1 if over else 0}
-        # (1) the property itself on the real code, whatever the model says about the steps
-        prop_bad = None
-        if over:
-            if not c["fail_items"] and sorted(got["trace"]) != list(range(c["n_items"])):
-                prop_bad = ("all threads ended but the work items were not trained exactly once each: kernel calls ran "
-                            "for items %r" % (got["trace"],))
-            elif not c["fail_items"] and r["status"] != "ok" and \
-                    r.get("type") in ("AttributeError", "TypeError", "NotImplementedError"):
-                pass        # the code asked the stand-ins for something they do not offer: see (2)
-            elif not c["fail_items"] and r["status"] != "ok":
-                prop_bad = "the call raised %s %s although no kernel call failed" % (r.get("type"), r.get("message"))
-            elif got["errs"] and r["status"] == "ok":
-                prop_bad = "the kernel call of item %d raised and the call returned weights" % got["errs"][0]
-        # (2) step alignment with the model
+        return over, {"trace": [e[2] for e in log if e[0] == "ran"],
+                      "finished": [e[2] for e in log if e[0] == "finished"],
+                      "errs": [e[2] for e in log if e[0] == "raised"],
+                      "dead": [e[1] for e in log if e[0] == "raised"][::-1],
+                      "done": 1 if over else 0}
+
+    def align(i, c, r, m, prefix, count=False):
+        """step alignment of the real threads with one machine: None or what differs"""
+        log = r["log"]
+        over, got = observed(c, r)
         bad = None
         if r["stuck"]:
             bad = "a worker thread did not reach its next step: %s" % r["stuck"]
@@ -156,7 +142,8 @@ def run(ctx, n, failures):
         elif m["blocked"]:
             bad = "the model reached a blocked thread (C02_queue_never_blocks says it cannot)"
         elif got["done"] == 0 and m["done"] == 0:
-            rep.bump("controlled_schedules_too_short_to_end", 1)      # both say so; the rest ran uncontrolled
+            if count:
+                rep.bump("controlled_schedules_too_short_to_end", 1)      # both say so; the rest ran uncontrolled
         else:
             for key in ("done", "trace", "finished", "errs", "dead"):
                 if got[key] != m[key]:
@@ -175,6 +162,35 @@ def run(ctx, n, failures):
             if not bad and over and i in prefix and prefix[i] != (1, 0):
                 bad = ("the real threads needed %d schedule entries; the model says all-ended=%r for that prefix and "
                        "%r for the prefix one shorter (expected 1 and 0)" % (r["schedule_used"], prefix[i][0], prefix[i][1]))
+        return bad
+
+    encs, mouts, prefix = model_runs(205)
+    first_broken, first_genuine = None, None
+    for i, (c, r, mo) in enumerate(zip(cases, impl, mouts)):
+        m = dec(mo)
+        d = {k: c[k] for k in ("n_threads", "n_items", "n_outcomes_per_job", "fail_items", "kind", "schedule")}
+        rep.case(d, nontrivial=c["n_threads"] > 1 and c["n_items"] > 1)
+        rep.hist("controlled_schedule_kind", c["kind"])
+        rep.hist("controlled_threads", c["n_threads"])
+        rep.hist("controlled_failing_items", len(c["fail_items"]))
+        rep.bump("controlled_turns", r["turns"])
+        log = r["log"]
+        over, got = observed(c, r)
+        # (1) the property itself on the real code, whatever the model says about the steps
+        prop_bad = None
+        if over:
+            if not c["fail_items"] and sorted(got["trace"]) != list(range(c["n_items"])):
+                prop_bad = ("all threads ended but the work items were not trained exactly once each: kernel calls ran "
+                            "for items %r" % (got["trace"],))
+            elif not c["fail_items"] and r["status"] != "ok" and \
+                    r.get("type") in ("AttributeError", "TypeError", "NotImplementedError"):
+                pass        # the code asked the stand-ins for something they do not offer: see (2)
+            elif not c["fail_items"] and r["status"] != "ok":
+                prop_bad = "the call raised %s %s although no kernel call failed" % (r.get("type"), r.get("message"))
+            elif got["errs"] and r["status"] == "ok":
+                prop_bad = "the kernel call of item %d raised and the call returned weights" % got["errs"][0]
+        # (2) step alignment with the machine of the lock protocol (acquire, empty(), get(), release, work)
+        bad = align(i, c, r, m, prefix, count=True)
         detail = {"correspondence": "X-sched-det", "theorems": THEOREMS, "case": d, "events": c["events"],
                   "impl": {k: r[k] for k in r if k != "log"}, "impl_log": log, "model": m}
         if prop_bad and first_genuine is None:
@@ -182,6 +198,23 @@ def run(ctx, n, failures):
             break
         if bad and first_broken is None:
             first_broken = (bad, detail)            # keep looking for an input on which the property itself fails
+    protocol = "lock protocol (QueueFaults.fstep, model 205)"
+    if first_broken and not first_genuine:
+        # the steps are not those of the lock protocol.  The second protocol for which the same theorems are proved
+        # (QueueNowait: no lock, get_nowait() until queue.Empty, one step per queue operation; C02_nowait_* / C05_nowait_*):
+        # if the real threads follow THAT machine step by step on every schedule, the correspondence holds with it
+        encs2, mouts2, prefix2 = model_runs(206)
+        bad2 = None
+        for i, (c, r, mo) in enumerate(zip(cases, impl, mouts2)):
+            bad2 = align(i, c, r, dec(mo), prefix2)
+            if bad2:
+                first_broken[1]["lock_free_protocol_model_206"] = {"first_mismatch": bad2, "schedule": c["schedule"]}
+                break
+        if bad2 is None:
+            first_broken = None
+            protocol = "lock-free protocol (QueueNowait.nstep, model 206)"
+            encs, mouts = encs2, mouts2
+    rep.note("worker_protocol_the_real_threads_follow", protocol)
     if first_genuine:
         rep.violation("controlled schedule: " + first_genuine[0], first_genuine[1])
     elif first_broken:
